@@ -16,8 +16,11 @@ CLAIMED['C14'] = dict(
     text="tpe::Response is proved by Verus on the extracted code: Response::new partitions the residual policies into the eight (effect x class) buckets and an id->residual map (loop invariant, unbounded), its decision table is sound for every completion of the still-partial residuals and definite when none is partial; every view (bucket accessors, get_residual_policy, policies, policy_set, reason) presents exactly those residual policies, and From<ResidualPolicy> for Policy keeps effect, id and annotations of the original with the residual as condition; Residual::is_true/is_false/is_error/is_concrete/is_partial classify as specified.",
     design_ref='§5 C14', technique='Verus function contracts + loop invariants on extracted code; completion universally quantified',
     note="Trusted: Verus/Z3, std model, Policy::from_when_clause_annos and accessors, From<Residual> for Expr (opaque), PolicySet::{new,add} contract. Not covered: tpe::Evaluator::interpret simplification rules, consistency checks, query_* in api/tpe.rs, reauthorize's validation steps.")
+CLAIMED['C02'] = dict(
+    text="Per-operator semantics proved by Verus on the extracted code: unary_app, binary_relation, binary_arith and Value::get_as_* agree with the language's operator semantics for every operand value (checked i64 arithmetic exact or overflow error, type errors on non-matching operands, total ==, < / <= on longs and comparable extension values); Pattern::wildcard_match equals the recursive wildcard-matching spec for every pattern and text (loop invariants + lemmas, unbounded).",
+    design_ref='§5 C02', technique='Verus function contracts + loop invariants on extracted code against a spec of the operator semantics',
+    note="Trusted: Verus/Z3, std model; Value equality (educe-derived PartialEq) and extension Ord as uninterpreted spec functions; From conversions into Value/EvaluationError; str::chars/is_empty. Not covered yet: the expression-node evaluator (partial_interpret_internal), Set operations, parser/EST front ends ('same result however the expression arrives').")
 NOT_APPLICABLE = {
-    'C02': 'in progress: evaluator units not yet built',
     'C03': 'strict-validation soundness relates two multi-thousand-line recursive functions over all programs x environments; no function contract within reach implies it (DESIGN §6)',
     'C04': 'in progress',
     'C05': 'parser is LALRPOP-generated tables + Display through fmt::Formatter; Verus has no str/formatter reasoning (DESIGN §6)',
